@@ -239,6 +239,8 @@ example : aaaHost true [] (lit "aaa-server $NAME (inside) host 1.2.3.4 key") =
     .ok (some (lit "aaa-server $NAME host x")) := by rfl
 
 theorem no_panic_stripMetric (parsed : Str) : NoPanic (stripMetric parsed) := stripMetric_noPanic parsed
+example : stripMetric (lit "ipv6 route inside ::/0 2001::1 5") = .ok (lit "ipv6 route inside ::/0 2001::1") := by rfl
+example : stripMetric (lit "ipv6 route vrf X 2001::/64 2001::1") = .ok (lit "ipv6 route vrf X 2001::/64 2001::1") := by rfl
 
 /-- `setTransRef`: the text behind ` set ikev1 transform-set ` is the tail of a right-trimmed line,
 so it has a word and `strings.Repeat` gets a count ≥ 0. -/
@@ -626,10 +628,10 @@ example : transRefs true (lit "cmd") (lit "a a a a a a a a a a a a") = .diag (li
 /-- Snapshot (F-C20u): an IOS ACL line with an object-group has a reference but no registered prefix. -/
 theorem checkRefs_iosObjectGroup_counterexample :
     checkRefs [] false (lit "permit ip object-group G any")
-      (typRefSub false iosTable ⟨2, [], [], [], 0, [], [], false⟩ ⟨1, [], [], [], 0, [lit "G"], [], false⟩)
+      (typRefSub false iosTable ⟨3, [], [], [], 0, [], [], false⟩ ⟨1, [], [], [], 0, [lit "G"], [], false⟩)
       [lit "G"] = .panic (.index "c.typ.ref[i]") := by rfl
 example : checkRefs [] false (lit "permit ip object-group G any")
-      (typRefSub true iosTable ⟨2, [], [], [], 0, [], [], false⟩ ⟨1, [], [], [], 0, [lit "G"], [], false⟩)
+      (typRefSub true iosTable ⟨3, [], [], [], 0, [], [], false⟩ ⟨1, [], [], [], 0, [lit "G"], [], false⟩)
       [lit "G"] = .diag (lit "'permit ip object-group G any' references unknown 'object-group G'") := by rfl
 
 /-- `mergeASAACLs` / `mergeIOSACLs`: the search for the last permit line and the insert never
